@@ -439,11 +439,20 @@ func c10BuildCases(run *core.Run) []C10Case {
 		"text/css":               {"a{content:\"x\\\ny\\\rz\\\r\nw\";b:url(data:,a%2f%41%)}", "a{b:url('data:image/gif,GIF89a%0A%');c:'q\\\r", "@import \"a\\\nb\\\r\";a{b:c\\\r}"},
 		"text/html":              {"<style>a{content:\"x\\\ny\\\r\"}</style><p style=\"content:'a\\\n\\\r\">", "<a href=\"data:text/plain,a%2f%4\">x</a>"},
 		"application/javascript": {"x=\"a\\\nb\\\r\";y=`c\\\r${1}\\\r`;z='\\u{41}\\x4"},
-		"image/svg+xml":          {"<svg><path d=\"M1e1 2e-1L.5.5z\" style=\"a:'b\\\n\\\r\"/></svg>"},
+		"image/svg+xml": {"<svg><path d=\"M1e1 2e-1L.5.5z\" style=\"a:'b\\\n\\\r\"/></svg>",
+			// constructs the minifier looks ahead from (empty containers, raw content, view boxes of every arity)
+			"<svg viewBox=\"0 0 100\"><defs/><defs></defs><g><defs><path d=\"M0 0\"/></defs></g><g></g><style>a{b:c}</style><![CDATA[x]]><text> a <tspan>b</tspan> </text><svg viewBox=\"100\"/><svg viewBox=\"0.0,0.0\"/><metadata><a/><b></b></metadata></svg>"},
 		"text/xml":               {"<a b=\"&#1\">&#x1;&am</a>"},
 		"application/json":       {"{\"a\":\"\\u00\",\"b\":1.5e-}"},
 	}
+	hostile["text/html"] = append(hostile["text/html"], "<p>x<svg viewBox=\"0 0 100\"><defs/><g><defs></defs></g><defs", "<ul><li>a<li>b</ul><table><tr><td>c<td>d</table><select><option>e<option>f</select><p>g<p>h")
 	for _, mt := range sixTypes {
+		// ... and of the small everyday inputs of the type
+		for _, sm := range smallInputs[mt] {
+			if len(sm) <= 300 {
+				hostile[mt] = append(hostile[mt], sm)
+			}
+		}
 		for hi, h := range hostile[mt] {
 			for cut := 0; cut <= len(h); cut++ {
 				cases = append(cases, C10Case{Kind: []string{"minify", "bytes"}[cut%2], MT: mt, Cfg: cut % 6, Input: []byte(h[:cut]), Label: fmt.Sprintf("prefix(hostile#%d,%d)", hi, cut)})
